@@ -1,10 +1,10 @@
 package main
 
 import (
-	"os"
 	"fmt"
 	"go/token"
 	"go/types"
+	"os"
 	"sort"
 	"strings"
 
@@ -465,12 +465,26 @@ func (e *Engine) havocLoop(st *State, fr *frame, li *loopInfo) {
 	// all other references that existed at loop entry.
 	frontier := st.nextRefTerm()
 	done := map[string]bool{}
+	initOnlyK, _ := e.stableKeys()
 	for _, ks := range whole {
 		if done[ks.Key] {
 			continue
 		}
 		done[ks.Key] = true
+		var before Term
+		keepEntry := initOnlyK[ks.Key] && e.cur != nil && e.cur.entry != nil
+		if keepEntry {
+			before = st.heapArr(ks.Key, ks.Sort)
+		}
 		st.havocHeapKey(ks)
+		if keepEntry {
+			// an init-only field is stored only through objects allocated by the
+			// storing function (engine scan): objects that existed when this
+			// function was entered keep their value across the loop
+			r := T("r!q", SInt)
+			st.assume(Forall([]Term{r}, Implies(And(Lt(IntLit(0), r), Lt(r, e.cur.entry.nextRefTerm())),
+				Eq(Select(st.heapArr(ks.Key, ks.Sort), r), Select(before, r)))))
+		}
 	}
 	slotRefs := map[string][]Term{}
 	sorts := map[string]KeySort{}
@@ -1532,7 +1546,6 @@ func (e *Engine) holdKey(env *SpecEnv, h HoldDecl) string {
 	sfail("holds: no field %s", h.Field)
 	return ""
 }
-
 
 // resolveHooks attaches the contract's after/before hooks to instructions of
 // the function: the unique source line of the function containing the hook's
